@@ -107,7 +107,7 @@ def gen(rng, tier, spec):
         if rng.chance(1, 2):
             prog.append([DETACH, fid[0]])
         else:
-            s = rng.below(2) + (100 if rng.chance(1, 3) else 0)   # slots >= 100: void-returning functor, future<void>
+            s = rng.below(2) + rng.weighted([(4, 0), (2, 100), (1, 200)])   # slots 100..: void functor; 200..: reference-returning functor
             prog.append([ASYNC, fid[0], s])
             slots.add(s)
 
@@ -115,7 +115,9 @@ def gen(rng, tier, spec):
         kinds = [(4, LOCK_SH), (3, TRY_SH)]
         if mk in (0, 2) or rng.chance(1, 10):
             kinds += [(2, TRY_SH_FOR), (1, TRY_SH_UNTIL)]
-        prog.append([rng.weighted(kinds), h])
+        k = rng.weighted(kinds)
+        # timed forms: sometimes a zero / negative duration, or a deadline in the past (third argument, ignored by the model)
+        prog.append([k, h] + ([rng.range(1, 2)] if k in (TRY_SH_FOR, TRY_SH_UNTIL) and rng.chance(1, 2) else []))
 
     for t in range(nt):
         prog, slots = [], set()
@@ -161,11 +163,12 @@ def gen(rng, tier, spec):
             if k == 0:
                 progs[t].append([LOAD])
             elif k == 1:
-                progs[t] += [[LOCK_SH, 7], [READ, 7], [RELEASE, 7]]
+                acq = [LOCK_SH, 7] if mk not in (0, 2) or rng.chance(1, 2) else [rng.pick([TRY_SH_FOR, TRY_SH_UNTIL]), 7, rng.range(1, 2)]
+                progs[t] += [acq, [READ, 7], [RELEASE, 7]]
             elif fid[0] < MAXFID:
                 fid[0] += 1
                 progs[t].append([DETACH, fid[0]])
-        for s in (0, 1, 100, 101):
+        for s in (0, 1, 100, 101, 200, 201):
             if rng.chance(1, 2 if s < 100 else 4):
                 progs[t].append([FUT_GET, s])
     # throw plan: indices of user-code invocations (at most one per submitted functor)
@@ -723,7 +726,7 @@ def mon_flag_not_atomic(case, lines):
                         'store of true to the pending flag (the flag is not raised by this call, or it is no longer an atomic object)' % (t, start[t]))
             if c in SHARED_OPS + (LOAD,) and not seen_load[t] and k == K['RET'] and v != -1:
                 return ('thread %d: the reader entry invoked at trace line %d (operation %d) performed no atomic load of the pending '
-                        'flag: the unlocked pre-check reads a non-atomic flag' % (t, start[t], c))
+                        'flag (the entry skipped do_pending_writes, or its unlocked pre-check reads a flag that is no longer atomic)' % (t, start[t], c))
             cur[t] = None
             continue
         if k == K['LOAD']:
